@@ -158,6 +158,32 @@ func runC17(c *Ctx) error {
 				if len(signs) == 0 {
 					continue
 				}
+				if c.Chance(1, 8) {
+					// a member that has not signed yet signs the fact twice (two signatures made at different times, handed
+					// over together): such an operation never reaches the processor, IsValid refuses duplicated signers
+					var free []c17party
+					for _, m := range members {
+						if !strings.Contains("/"+strings.Join(signs, "/")+"/", fmt.Sprintf("/%d.", m.id)) {
+							free = append(free, m)
+						}
+					}
+					if len(free) > 0 {
+						m := free[c.Intn(len(free))]
+						s1, err1 := base.NewBaseNodeSignFromFact(m.addr, m.priv, networkID, op.Fact())
+						time.Sleep(2 * time.Millisecond)
+						s2, err2 := base.NewBaseNodeSignFromFact(m.addr, m.priv, networkID, op.Fact())
+						if err1 == nil && err2 == nil && !s1.SignedAt().Equal(s2.SignedAt()) {
+							if _, err := op.AddNodeSigns([]base.NodeSign{s1, s2}); err == nil {
+								c.Count("join-with-a-member-signing-twice", "built")
+								if err := op.IsValid(networkID); err == nil {
+									c.Violation("C17:duplicate-signer-accepted", fmt.Sprintf("a SuffrageJoin with signs %s and two different signatures of member %d passes IsValid: the member would count twice towards the threshold",
+										strings.Join(signs, "/"), m.id), map[string]interface{}{"signs": signs, "twice": m.id, "members": nm, "t10": t10})
+								}
+								continue // refused before it reaches the processor
+							}
+						}
+					}
+				}
 				ops = append(ops, opx{fmt.Sprintf("j:%d:%d:%s", cand.id, start, strings.Join(signs, "/")), op})
 			case k < 7: // disjoin
 				mi := c.Intn(nm)
